@@ -26,7 +26,8 @@ func TestC09D(t *testing.T) {
 	RunVestD(t, "D: schedules of 1-100 instalments with constructed weights, proceeds 0 / < n / small / up to 1e33 minted into the paying escrow of a directly stored open auction, ApplyVestingSchedules, then generated block times on / around / skipping release instants through the module's BeginBlock; instalment amounts, sum, release times, payouts per block, released flags and status vs the reference.")
 }
 func TestC15(t *testing.T) { RunC15(t) }
-func TestC17(t *testing.T) { RunC17(t) }
+func TestC17(t *testing.T)  { RunC17(t) }
+func TestC17H(t *testing.T) { RunK(t, CfgC17H()) }
 func TestC14A(t *testing.T)     { RunC14(t) }
 func TestC14Hooks(t *testing.T) { RunC14Hooks(t) }
 func TestC07K(t *testing.T) { RunK(t, CfgC07()) }
